@@ -535,7 +535,7 @@ func newC13Recv(seed int64, v int, quick bool, thin int) *c13Recv {
 		if st.Peer == nil {
 			continue
 		}
-		p.auth[si] = c13AuthPayloads(st.Peer)
+		p.auth[si] = c13AuthPayloads(st.Peer, !quick)
 	}
 	p.offs = []int{0}
 	for si := range p.states {
@@ -546,7 +546,7 @@ func newC13Recv(seed int64, v int, quick bool, thin int) *c13Recv {
 }
 
 // c13AuthPayloads builds correctly authenticated data messages with hostile contents, using a clone of the honest peer as the factory.
-func c13AuthPayloads(peer *verifPrincipal) (out []c13MutCase) {
+func c13AuthPayloads(peer *verifPrincipal, triples bool) (out []c13MutCase) {
 	mk := func(desc string, msg []byte, flag byte, tlvs ...tlv) {
 		f := verifClone(peer)
 		var ms []ValidMessage
@@ -588,6 +588,38 @@ func c13AuthPayloads(peer *verifPrincipal) (out []c13MutCase) {
 				v = append([]byte("q\x00"), v...)
 			}
 			mk(fmt.Sprintf("SMP TLV %d with %d zero MPIs", ty, cnt), nil, 1, tlv{tlvType: ty, tlvLength: uint16(len(v)), tlvValue: v})
+		}
+	}
+	// every ordered pair (thorough: triple) of TLV kinds in one data message: a handler must not rely on what an
+	// earlier TLV of the same message left behind
+	plausible := func(ty uint16) tlv {
+		var v []byte
+		cnt := map[uint16]int{2: 6, 3: 11, 4: 8, 5: 3, 7: 6}[ty]
+		switch {
+		case cnt > 0:
+			if ty == 7 {
+				v = []byte("q\x00")
+			}
+			v = append(v, w32(uint32(cnt))...)
+			for i := 0; i < cnt; i++ {
+				v = AppendMPI(v, bnFromInt(int64(3+i)))
+			}
+		case ty == 8:
+			v = []byte{0, 0, 0, 1}
+		case ty == 0:
+			v = []byte{0, 0}
+		}
+		return tlv{tlvType: ty, tlvLength: uint16(len(v)), tlvValue: v}
+	}
+	kinds := []uint16{0, 1, 2, 3, 4, 5, 6, 7, 8, 9}
+	for _, a := range kinds {
+		for _, b := range kinds {
+			mk(fmt.Sprintf("TLV sequence %d,%d", a, b), nil, 1, plausible(a), plausible(b))
+			if triples {
+				for _, c := range kinds {
+					mk(fmt.Sprintf("TLV sequence %d,%d,%d", a, b, c), nil, 1, plausible(a), plausible(b), plausible(c))
+				}
+			}
 		}
 	}
 	mk("SMP1Q without NUL", nil, 1, tlv{tlvType: 7, tlvLength: 3, tlvValue: []byte("abc")})
@@ -1147,7 +1179,7 @@ func init() {
 			return fs
 		},
 		Run: func(r *verifReport) {
-			r.Rule = "exhaustive bounded input enumeration, every call under recover with heap allocation measured (bound 1 MiB + 4096·len): (bytes) all byte strings ≤ 6 over {00,01,7f,80,ff} into every binary parser; (sexp) all strings ≤ 7 over ( ) \" # a F space into the s-expression and key-file readers (also behind valid prefixes); (mut) every truncation, single deletion and word/char substitution of valid key and MPI serialisations and of a libotr key file; (recv) 15 conversation states × {every raw and base64 truncation and length-word substitution of every genuine message kind, ?OTR marker variants ≤ 9 chars, fragment header variants, authenticated-but-malicious TLV payloads} into Receive, followed by a usability probe (End, fresh exchange, text both ways) whenever the state changed; (rand) every index k at which the k-th read of Conversation.Rand fails or is short, then usability with a healed source. Non-trivial = accepted by a parser / changed state or produced an error or event"
+			r.Rule = "exhaustive bounded input enumeration, every call under recover with heap allocation measured (bound 1 MiB + 4096·len): (bytes) all byte strings ≤ 6 over {00,01,7f,80,ff} into every binary parser; (sexp) all strings ≤ 7 over ( ) \" # a F space into the s-expression and key-file readers (also behind valid prefixes); (mut) every truncation, single deletion and word/char substitution of valid key and MPI serialisations and of a libotr key file; (recv) 15 conversation states × {every raw and base64 truncation and length-word substitution of every genuine message kind, ?OTR marker variants ≤ 9 chars, fragment header variants, authenticated-but-malicious TLV payloads incl. every ordered pair (thorough: triple) of the ten TLV kinds in one message} into Receive, followed by a usability probe (End, fresh exchange, text both ways) whenever the state changed; (rand) every index k at which the k-th read of Conversation.Rand fails or is short, then usability with a healed source. Non-trivial = accepted by a parser / changed state or produced an error or event"
 			r.Assumptions = []string{"workers run with RLIMIT_AS = 6 GiB; a worker that dies or stalls > 180 s is isolated to the single case and confirmed on two further isolated runs before it is reported", "allocation is read from runtime/metrics /gc/heap/allocs:bytes around each call"}
 			for _, part := range []string{"bytes", "sexp", "mut", "recv3", "recv2", "rand"} {
 				p := c13BuildPart(part, r.Seed, r.Tier)
